@@ -248,7 +248,7 @@ def run_property(ctx, prop, replay=None):
     fixed = None
     if replay and "spec" in replay.get("data", {}):
         d = replay["data"]
-        fixed = (d["spec"], d["initial_pools"], d["schedule"])
+        fixed = (d["spec"], d["initial_pools"], d["schedule"], d.get("terminated", True))
     n = 0 if fixed else (1200 if ctx.thorough else 110)
     cases = travgen.run_batch(ctx, n, FLAVOURS[prop], prop.lower(), fixed=fixed, timed_share={"C04": 0.7, "C02": 0.3}.get(prop, 0.15))
     bad = [c for c in cases if not c["agrees"]]
